@@ -86,6 +86,15 @@ check("C12", "exploration",
       "flat-listing reference; with RenameDetector only soundness invariants are demanded; git 2.39.5",
       "DESIGN.md §5 C12")
 
+check("C11", "exploration",
+      "runtime differential monitor: real Index.write/read on generated entry sets against an independent index codec (validated on git-written files each run) and C git as reader and writer (ls-files --stage --debug, update-index, add -N, status); exhaustive single-byte corruption/truncation of small indexes",
+      "Generated entry sets (arbitrary-byte paths, v4 strip lengths across 127/128 and 16383/16384, names of 0xFFC..0x2001 bytes, conflict "
+      "stages, stat values to 2^63, flag bits, versions 2/3/4 x skipHash x unknown extensions) are written by dulwich, decoded by the "
+      "reference codec (order, name-length saturation, padding, varint, trailer), read back by dulwich and listed by git; git-written "
+      "indexes are read and rewritten by dulwich and listed again by git; every byte flip (2 patterns) and truncation of small indexes must raise.",
+      "reference decoder from gitformat-index; stat fields modulo git's 32-bit truncation; git 2.39.5; sha256 repositories not covered (index code is sha1-only)",
+      "DESIGN.md §5 C11")
+
 ALL = ["C%02d" % i for i in range(1, 21)]
 
 
